@@ -34,7 +34,7 @@ META = {
     },
 }
 CASES = {'quick': 5000, 'thorough': 400000}
-SECONDS = {'quick': 60, 'thorough': 1500}
+SECONDS = {'quick': 60, 'thorough': 600}
 
 
 def run_program(files, root, via_graph=False):
